@@ -45,6 +45,13 @@ CONFIGS = {
     'G0':   cfg(N=3, HEAD=1, L=2, CTX=1, BARE=1),
     'G1':   cfg(N=3, HEAD=1, L=2, CTX=1, BARE=1, feats=('LOG',)),
     'G2':   cfg(N=3, HEAD=1, L=2, CTX=1, BARE=1, feats=('VERBOSE',)),
+    # logging families with injections (one sparse state) and with payload + plans
+    'GI0':  cfg(N=2, HEAD=1, L=2, CTX=1, INJ=dict(R=1, S0=2, S1=1), SPARSE=(1, 2)),
+    'GI1':  cfg(N=2, HEAD=1, L=2, CTX=1, INJ=dict(R=1, S0=2, S1=1), SPARSE=(1, 2), feats=('LOG',)),
+    'GI2':  cfg(N=2, HEAD=1, L=2, CTX=1, INJ=dict(R=1, S0=2, S1=1), SPARSE=(1, 2), feats=('VERBOSE',)),
+    'GQ0':  cfg(N=2, HEAD=1, PAYLOAD=4, CAP=2, L=2, CTX=1, feats=('PLANS',)),
+    'GQ1':  cfg(N=2, HEAD=1, PAYLOAD=4, CAP=2, L=2, CTX=1, feats=('PLANS', 'LOG')),
+    'GQ2':  cfg(N=2, HEAD=1, PAYLOAD=4, CAP=2, L=2, CTX=1, feats=('PLANS', 'VERBOSE')),
     'GP0':  cfg(N=2, HEAD=1, CAP=2, L=2, CTX=1, feats=('PLANS',)),
     'GP1':  cfg(N=2, HEAD=1, CAP=2, L=2, CTX=1, feats=('PLANS', 'LOG')),
     'GP2':  cfg(N=2, HEAD=1, CAP=2, L=2, CTX=1, feats=('PLANS', 'VERBOSE')),
